@@ -343,7 +343,7 @@ def ekuTable : List OID :=
    [1, 3, 6, 1, 5, 5, 7, 3, 4], [1, 3, 6, 1, 5, 5, 7, 3, 5], [1, 3, 6, 1, 5, 5, 7, 3, 6], [1, 3, 6, 1, 5, 5, 7, 3, 7],
    [1, 3, 6, 1, 5, 5, 7, 3, 8], [1, 3, 6, 1, 5, 5, 7, 3, 9], [1, 3, 6, 1, 4, 1, 311, 10, 3, 3], [2, 16, 840, 1, 113730, 4, 1]]
 
-/-- `oidFromExtKeyUsage` (`none`: not found, `buildExtensions` panics) -/
+/-- `oidFromExtKeyUsage` (`none`: not found, `buildExtensions` returns an error - it panicked before the round-12 repair) -/
 def oidFromEKU (u : Nat) : Option OID := ekuTable[u]?
 
 /-- `extKeyUsageFromOID`: first table entry with that OID -/
